@@ -567,6 +567,10 @@ class C04(PropBase):
             case, exp = win_scan_mix_stack(rng, rng.choice([2, 3, 3, 4, 5, 6, 8, 12, 20, 40]))
             cases.append(case + " " + fmt_exp(exp))
         dist["x86_scan_stack_win_cfi_mixed"] = n_f
+        # the runner cuts the case list into contiguous shards: deal the cases round-robin so that every shard gets its share of
+        # the expensive Coq-built depth-64 layouts (they used to fill the first shards, which then set the wall time)
+        k = 16
+        cases = [c for i in range(k) for c in cases[i::k]]
         return cases, dist, False
 
 
